@@ -505,3 +505,54 @@ def gen_fail_graph(name, wb, pool, src, breakable, init_broken, dynamic,
         raise tlc.MachineryFailure(
             f'export incomplete: {len(g.states)} states parsed, TLC found {res.distinct}')
     return g
+
+
+# ---------------------------------------------------------------------------
+# Reload.tla (C03: save/load at any point of a history)
+
+def canon_rstate(s):
+    return json.dumps(dict(
+        inp=s['inp'], built=sorted(s['built']), cache=s['cache'] if isinstance(s['cache'], dict) else {},
+        edges=sorted(map(tuple, s['edges'])), changed=s['changed'], reloaded=s['reloaded']),
+        sort_keys=True)
+
+
+def gen_reload_graph(name, wb, pool, src, settable=None, timeout=1800):
+    d = tlc.new_scratch('reload')
+    mod = f'MC_{name}_{src}_rl'
+    with open(os.path.join(d, mod + '.tla'), 'w') as f:
+        f.write(W.tla_constants(wb, pool, src, mod, settable=settable, extends='Reload'))
+    with open(os.path.join(d, 'gen.cfg'), 'w') as f:
+        f.write(W.CONST_CFG + 'SPECIFICATION RSpec\nVIEW rview\n'
+                'INVARIANT CoherentR\nINVARIANT RetOKR\nINVARIANT MirrorR\n'
+                'INVARIANT EdgesComplete\nPROPERTY SameCells\n'
+                'INVARIANT RPrintInit\nACTION_CONSTRAINT RPrintEdge\n')
+    res = tlc.run(mod, os.path.join(d, 'gen.cfg'), spec_dir=d, workers=1,
+                  library=tlc.SPEC, timeout=timeout, heap='3g')
+    if not res.ok:
+        raise tlc.MachineryFailure(
+            f'Reload model {name}/{src} violates {res.violated}:\n'
+            + '\n'.join(l for l in res.stdout.splitlines()
+                        if not l.startswith('"'))[-3000:])
+    g = Graph()
+    g.tlc = res
+    seen = set()
+    for rec in res.json:
+        if 'init' in rec:
+            k = canon_rstate(rec['init'])
+            g.init = k
+            g.states[k] = rec['init']
+            continue
+        kf, kt = canon_rstate(rec['from']), canon_rstate(rec['to'])
+        g.states.setdefault(kf, rec['from'])
+        g.states.setdefault(kt, rec['to'])
+        ak = json.dumps(rec['act'], sort_keys=True)
+        if (kf, ak) in seen:
+            continue
+        seen.add((kf, ak))
+        g.out[kf].append((rec['act'], rec['ret'], kt))
+    res.stdout, res.json = '', []
+    if len(g.states) != res.distinct:
+        raise tlc.MachineryFailure(
+            f'export incomplete: {len(g.states)} states parsed, TLC found {res.distinct}')
+    return g
